@@ -15,7 +15,7 @@ META = {
     "x 2 samples of ploidy 2 and 3 x every GT over listed alleles and '.' x optional fields {ACP, AFP, none} x SNVDP on/off; plus every haplotype VCF the standard "
     "pipeline produces (assemble at three thresholds, call, call-exact); each output line is compared with an independent per-site projection; "
     "non-trivial = record with >= 1 ALT and >= 1 SNV",
-    "bound": {"quick": "all 50 ALT lists x supersets x all sample-1 GTs x every 2nd sample-2 GT x 3 field layouts (~150k records); 5 pipeline VCFs",
+    "bound": {"quick": "all 50 ALT lists x supersets x all sample-1 GTs x every 2nd sample-2 GT x 3 field layouts (26k records, 70k output lines); 5 pipeline VCFs x 2 field layouts",
               "thorough": "all sample-2 GTs; REF ACA added"},
     "assumptions": ["a site without an alternative base may be omitted or emitted with ALT '.'", "printed floats: |printed - exact| <= 0.0005"],
     "trusted_base": ["vmc/vcfparse.py"],
@@ -269,6 +269,8 @@ def job_gen(job):
                         env.quiet()
                         compare(r, payload, tagp, text, out, "gen")
                         r.outcome((ref, alts, snv, layout, with_dp))
+                        if not r.samples and len(alts) == 2 and len(snv) >= 2 and layout == "ACP":
+                            r.sample({"input_record": lines[len(lines) // 2], "atomize_lines": [l for l in out.splitlines() if not l.startswith("#")][2 * len(snv) * (len(lines) // 2) // 2:][:len(snv)]})
     r.sample({"generated": "REF=%s chunk %d/%d" % (ref, ch, nch), "records": r.evaluations}, cap=1)
     return r
 
